@@ -326,4 +326,68 @@ theorem gens_refines (ll : Nat) (fs : FS) (files : Spec.Files) (main : Str) (d :
           rw [this, hs]; exact herr
         rw [cutS_append_err _ _ h1, cutS_append_err _ _ herr, hp, cutS_flatMap_cutS, hs]
 
+/-! ## a sufficient, decidable criterion for `FileOK` (used by the non-vacuity examples) -/
+
+/-- a line without `$` and `#` whose only white space is the blank is a `GoodLine` as soon as it fits and carries a word -/
+theorem goodLine_plain (limit : Nat) (x : List Char)
+    (h1 : ∀ c ∈ x, pyIsSpace c = true → c = ' ') (h2 : x.length < limit)
+    (h3 : x.contains '#' = false) (h4 : x.contains '$' = false)
+    (h5 : Spec.isBlankLine x = false → Spec.isCommentLine x = false → Spec.lineWords x ≠ []) : GoodLine limit x where
+  onlyBlanks := h1
+  fits := h2
+  noVertical := by
+    intro h
+    have : x.contains '#' = true := by
+      simp only [List.contains_eq_mem, decide_eq_true_eq] at h ⊢
+      exact List.mem_of_mem_take h
+    rw [h3] at this; exact absurd this (by decide)
+  noAmpDollar := by intro h; rw [h4] at h; exact absurd h (by decide)
+  hasWords := h5
+  dollarSpaced := by
+    intro pre post e
+    have : x.contains '$' = true := by rw [e]; simp
+    rw [h4] at this; exact absurd this (by decide)
+
+theorem wt_noBlank (start : Nat) (hs : start < 3) (ks : List Spec.Kind) (h : ∀ k ∈ ks, k ≠ .blank) :
+    wellTerminated start ks = true := by
+  induction ks with
+  | nil => rfl
+  | cons k ks ih =>
+    have ih' := ih (fun k' hk' => h k' (List.mem_cons_of_mem _ hk'))
+    cases k with
+    | blank => exact absurd rfl (h _ (by simp))
+    | comment => simpa [wellTerminated] using ih'
+    | data c w a => simp [wellTerminated, hs, ih']
+
+theorem kind_ne_blank (x : List Char) (h : Spec.isBlankLine x = false) : Spec.classifyPhysical x ≠ .blank := by
+  unfold Spec.classifyPhysical
+  simp only [h, Bool.false_eq_true, ↓reduceIte]
+  split
+  · simp
+  · split <;> simp
+
+theorem exFileOK (start : Nat) (hs : start < 3) (ls : List (List Char)) (bytes : List Nat)
+    (hm : fileLines bytes = ls.map (· ++ ['\n']))
+    (hg : ∀ x ∈ ls, (∀ c ∈ x, pyIsSpace c = true → c = ' ') ∧ x.length < 128 ∧ x.contains '#' = false ∧
+      x.contains '$' = false ∧ Spec.isBlankLine x = false ∧ (Spec.isCommentLine x = false → Spec.lineWords x ≠ [])) :
+    FileOK 128 start (fileLines bytes) ls := by
+  refine ⟨ls.map (fun x => (x, ['\n'])), ?_, ?_, ?_, ?_⟩
+  · rw [hm, List.map_map]; rfl
+  · rw [List.map_map]
+    clear hm hg
+    induction ls with
+    | nil => rfl
+    | cons x l ih => rw [List.map_cons, ← ih]; rfl
+  · intro q hq
+    obtain ⟨x, hx, rfl⟩ := List.mem_map.mp hq
+    obtain ⟨a, b, c, d, _, f⟩ := hg x hx
+    exact ⟨goodLine_plain 128 x a b c d (fun _ => f), Or.inr rfl⟩
+  · -- no blank line in the file: the block never changes
+    apply wt_noBlank start hs
+    intro k hk
+    rw [List.map_map] at hk
+    obtain ⟨x, hx, rfl⟩ := List.mem_map.mp hk
+    exact kind_ne_blank x (hg x hx).2.2.2.2.1
+
+
 end MontePyVerif.Flatten
